@@ -22,6 +22,7 @@ condition has an invalid destination (`Tag.jumpiInvalidSym`) claims the whole in
 when the condition is false; the theorems speak about `Tag.normal` end states (see `tagged_end_unsound_witness`).
 -/
 import HalmosVerif.Lemmas.SevmExplore
+import HalmosVerif.Lemmas.SevmCallExplore
 import HalmosVerif.Lemmas.WordStd
 
 namespace HalmosVerif.Props.C01
@@ -60,7 +61,7 @@ theorem step_sound {I : Interp} {env : Env} {code : List Nat} {p : Evm.Params} {
           WRel I w0 w' f.this st'.storage st'.transient) ∧
     (∀ e ∈ (step s o cfg env code st).ends, e.tag = .normal → ∀ h, e.out = .halt h →
         Evm.step p w f = .halt w (haltWith h (e.data.map (·.eval I))) ∧
-        e.st.storage = st.storage ∧ e.st.transient = st.transient) :=
+        e.st.storage = st.storage ∧ e.st.transient = st.transient ∧ (∀ b ∈ e.data, b.WF ∧ b.width = 8)) :=
   Lemmas.Sevm.step_sound hs hI hR hsat hl hmem hcode hW
 
 /-! ### the property -/
@@ -310,6 +311,135 @@ example : (run foldSimp exOracle {} exEnv
        0x5b, 0xfe] 100).ends.map (fun e => (e.st.pc, e.out, e.st.path, e.st.subst)) =
     [(9, .halt (.success []), [.not (.cmp .eq (.var "x" 256) (.lit 256 42))], []),
      (22, .halt .invalidOpcode, [.cmp .eq (.var "x" 256) (.lit 256 42)], [(.var "x" 256, .lit 256 42)])] := by
+  decide +kernel
+
+
+/-! ### message calls (Model.SevmCalls) -/
+
+/-- **C01.sound_calls.** The same statement for the frame-stack machine `runC`, i.e. for programs that make message
+    calls — CALL / CALLCODE (value: the literal 0), DELEGATECALL, STATICCALL to literal targets, nested to any depth
+    the model follows: the target's code is looked up in `codes` (a target without code succeeds with no output), the
+    callee runs on the same worklist, its result resumes the caller (success flag, return area truncated to
+    `min(ret_size, len)`, RETURNDATASIZE / RETURNDATACOPY, storage and transient storage of *all* accounts rolled back
+    when the callee failed, `msg.sender` / `address(this)` / value / static flag per call kind).
+    Every untagged end `ce` of the run that reports an EVM outcome of kind `h`, and every valuation `I` satisfying its
+    path: the reference EVM — `Spec.Evm.exec`, which executes nested calls — run on the transaction's first frame `f0`
+    in the world `w` terminates with exactly that outcome (kind, and the returned bytes are the values of `ce.e.data`),
+    in a world `w'` that is exactly what the end's storage maps say (`WRelM`): every slot of every *modelled* account
+    (the transaction's target and every account with known code) holds the value of the term last stored there,
+    unwritten slots are zero, and nothing else of the world — other accounts' storage, code, balances, logs —
+    differs from `w`.
+    Hypotheses, all visible: `hcodes` — the world's code is the known code; `hcb` — code is a byte string; `hz` —
+    every modelled account starts with zero storage; `hdep` — the reference's depth limit admits 1024 nested frames
+    (beyond it the model's path ends stuck); `hmem` as in `sound`; `hd0` — `f0` is a top-level frame.
+    Symbolic call targets, precompiles and cheat-code addresses, and a call value other than the literal 0 end the
+    path stuck: an error report, about which nothing is claimed. -/
+theorem sound_calls {s : Simp} (hs : SimpSound s) (o : Oracle) (cfg : Cfg) (env : Env)
+    (codes : List (Nat × List Nat)) (this : Nat) (fuel : Nat) (p : Evm.Params) (w : Evm.World)
+    (hmem : cfg.maxMem + 32 ≤ p.memLimit) (hdep : 1024 ≤ p.maxDepth)
+    (hcodes : ∀ a, w.codeOf a = codeOf codes a)
+    (hcb : ∀ a prog, codeOf codes a = some prog → ∀ b ∈ prog, b < 256)
+    (hz : ∀ a, Modelled codes this a → ZeroStorage w a)
+    (ce : CEnd) (hce : ce ∈ (runC s o cfg env codes this fuel).ends)
+    (htag : ce.e.tag = .normal) (h : Evm.Halt) (hout : ce.e.out = .halt h) (I : Interp) (hI : I.Std)
+    (f0 : Evm.Frame) (hR0 : R I env ((codeOf codes this).getD []) p initState f0) (hthis : f0.this = this)
+    (hd0 : f0.depth = 0) (hsat : Sat I ce.e.st.path) :
+    ∃ n w', Evm.exec p n w f0 = some (w', haltWith h (ce.e.data.map (·.eval I))) ∧
+        WRelM I (Modelled codes this) w w' (stoOf ce.stores) := by
+  have hgood := exploreC_sound (o := o) (cfg := cfg) (codes := codes) (p := p) (w0 := w)
+    (S := Modelled codes this) (cs0 := initC env codes this) hs hmem hdep hcodes
+    (fun _ _ h => modelled_of_code h) hcb fuel 0 [initC env codes this] {} (by
+      intro cs hm
+      rw [List.mem_singleton] at hm
+      subst hm; exact goodC_init)
+    (by intro e hm; cases hm)
+  obtain ⟨w', ⟨n, hn⟩, hW⟩ := hgood ce hce htag h hout I hI f0 (relC_init hR0 hthis hd0 hcb hz) hsat
+  exact ⟨n, w', hn, hW⟩
+
+/-! non-vacuity: a caller and a callee -/
+
+/-- the callee at 0x2000: `sstore(0, 7); mstore(0, 0x2a); return(0, 32)` -/
+def calleeCode : List Nat := [0x60, 7, 0x60, 0, 0x55, 0x60, 0x2a, 0x60, 0, 0x52, 0x60, 32, 0x60, 0, 0xf3]
+
+/-- the caller at 0x1000: `call(0, 0x2000, 0, 0, 0, 0, 32); pop; sstore(1, mload(0)); return(0, 32)`:
+    `PUSH1 32; PUSH1 0; PUSH1 0; PUSH1 0; PUSH1 0; PUSH2 0x2000; PUSH1 0; CALL; POP; PUSH1 0; MLOAD; PUSH1 1; SSTORE;
+     PUSH1 32; PUSH1 0; RETURN` -/
+def callerCode : List Nat :=
+  [0x60, 32, 0x60, 0, 0x60, 0, 0x60, 0, 0x60, 0, 0x61, 0x20, 0x00, 0x60, 0, 0xf1, 0x50, 0x60, 0, 0x51, 0x60, 1, 0x55,
+   0x60, 32, 0x60, 0, 0xf3]
+
+def exCodes : List (Nat × List Nat) := [(0x1000, callerCode), (0x2000, calleeCode)]
+def exWC : Evm.World := { code := exCodes, storage := [], transient := [], balance := [] }
+def exPC : Evm.Params := { origin := 0, memLimit := 2 ^ 20 + 32, maxDepth := 1024 }
+
+/-- the model's single end: success, the callee's 32 bytes as data, and the maps of both accounts -/
+theorem call_end : ∃ ce ∈ (runC foldSimp exOracle {} exEnv exCodes 0x1000 100).ends, ce.e.tag = .normal ∧
+    ce.e.out = .halt (.success []) ∧ ce.e.st.path = [] ∧
+    ce.e.data.map (·.eval exI) = List.replicate 31 0 ++ [0x2a] ∧
+    (stoOf ce.stores 0x2000).storage = [(0, .lit 256 7)] ∧ (stoOf ce.stores 0x1000).storage = [(1, .lit 256 0x2a)] := by
+  decide +kernel
+
+/-- `sound_calls` on it: the reference EVM, executing the nested call, returns those bytes, slot 0 of the *callee*
+    holds 7 and slot 1 of the caller holds 0x2a in the final world -/
+example : ∃ n w', Evm.exec exPC n exWC { exF0 with code := callerCode } =
+        some (w', .success (List.replicate 31 0 ++ [0x2a])) ∧
+      Evm.lookupD w'.storage (0x2000, 0) = 7 ∧ Evm.lookupD w'.storage (0x1000, 1) = 0x2a ∧
+      Evm.lookupD w'.storage (0x2000, 1) = 0 := by
+  obtain ⟨ce, hce, htag, hout, hp, hd, hs2, hs1⟩ := call_end
+  have hR : R exI exEnv ((codeOf exCodes 0x1000).getD []) exPC initState { exF0 with code := callerCode } :=
+    ⟨rfl, rfl, StackRel.nil, ⟨exR.env.caller, exR.env.origin, exR.env.callvalue, exR.env.address, exR.env.cd,
+      exR.env.cdByte, exR.env.cdSize, exR.env.isStatic⟩, exR.subst, MemRel.nil _, MemRel.nil _⟩
+  obtain ⟨n, w', h1, hW⟩ := sound_calls foldSimp_sound exOracle {} exEnv exCodes 0x1000 100 exPC exWC (by decide)
+    (by decide) (fun a => rfl) (by
+      intro a prog hc b hb
+      have hall : ∀ q ∈ exCodes, ∀ b ∈ q.2, b < 256 := by decide
+      unfold codeOf at hc
+      cases hf : exCodes.find? (fun q => q.1 == a) with
+      | none => rw [hf] at hc; cases hc
+      | some q =>
+        rw [hf] at hc
+        simp only [Option.map_some, Option.some.injEq] at hc
+        subst hc
+        exact hall q (List.mem_of_find?_eq_some hf) b hb)
+    (fun _ _ _ => ⟨rfl, rfl⟩) ce hce htag (.success []) hout exI exI_std _ hR rfl rfl
+    (by rw [hp]; exact Sat.nil _)
+  refine ⟨n, w', ?_, ?_, ?_, ?_⟩
+  · have hv : haltWith (.success []) (ce.e.data.map (·.eval exI)) = .success (List.replicate 31 0 ++ [0x2a]) := by
+      rw [hd]; rfl
+    rw [← hv]; exact h1
+  · have := hW.hsto 0x2000 (Or.inr (by decide)) 0
+    rw [hs2] at this
+    exact this.trans (by decide +kernel)
+  · have := hW.hsto 0x1000 (Or.inl rfl) 1
+    rw [hs1] at this
+    exact this.trans (by decide +kernel)
+  · have := hW.hsto 0x2000 (Or.inr (by decide)) 1
+    rw [hs2] at this
+    exact this.trans (by decide +kernel)
+
+/-- and the reference interpreter agrees directly -/
+example : (Evm.exec exPC 40 exWC { exF0 with code := callerCode }).map
+      (fun r => (r.2, Evm.lookupD r.1.storage (0x2000, 0), Evm.lookupD r.1.storage (0x1000, 1))) =
+    some (.success (List.replicate 31 0 ++ [0x2a]), 7, 0x2a) := by decide +kernel
+
+/-- a reverting callee: `sstore(0, 7); mstore(0, 0x2a); revert(0, 32)` -/
+def revCallee : List Nat := [0x60, 7, 0x60, 0, 0x55, 0x60, 0x2a, 0x60, 0, 0x52, 0x60, 32, 0x60, 0, 0xfd]
+/-- its caller: `sstore(1, call(..))`, then returns the return area -/
+def revCaller : List Nat :=
+  [0x60, 32, 0x60, 0, 0x60, 0, 0x60, 0, 0x60, 0, 0x61, 0x20, 0x00, 0x60, 0, 0xf1, 0x60, 1, 0x55, 0x60, 32, 0x60, 0, 0xf3]
+def revCodes : List (Nat × List Nat) := [(0x1000, revCaller), (0x2000, revCallee)]
+
+/-- the callee's SSTORE is rolled back on both sides; the caller sees the flag 0 and the revert data -/
+example :
+    (runC foldSimp exOracle {} exEnv revCodes 0x1000 100).ends.map
+        (fun ce => (ce.e.out, ce.e.tag, ce.e.data.map (·.eval exI))) =
+      [(.halt (.success []), .normal, List.replicate 31 0 ++ [0x2a])] ∧
+    (runC foldSimp exOracle {} exEnv revCodes 0x1000 100).ends.map
+        (fun ce => ((stoOf ce.stores 0x2000).storage.map (fun kv => (kv.1, kv.2.eval exI)),
+          (stoOf ce.stores 0x1000).storage.map (fun kv => (kv.1, kv.2.eval exI)))) = [([], [(1, 0)])] ∧
+    (Evm.exec exPC 40 { exWC with code := revCodes } { exF0 with code := revCaller }).map
+        (fun r => (r.2, Evm.lookupD r.1.storage (0x2000, 0), Evm.lookupD r.1.storage (0x1000, 1))) =
+      some (.success (List.replicate 31 0 ++ [0x2a]), 0, 0) := by
   decide +kernel
 
 /-! ### the tagged site is genuinely outside the theorem (known finding) -/
